@@ -1,14 +1,279 @@
-//! C19 — not implemented yet (stub).
-use crate::report::{Cfg, Meta, Report};
+//! C19 — decoders of untrusted bytes never panic and accept only what they can re-encode.
+//!
+//! Deterministic, seedable hostile-bytes monitor. For every decoder of the public API it feeds
+//! (i) structure-aware mutations of VALID encodings (produced by C10's source generator, real
+//! proofs, random statements) and (ii) random byte strings, each call wrapped in `util::catch`.
+//! Oracle: the result is `Err` or `Ok(v)`; a panic is a violation `panic/<decoder>/<site>`; an
+//! accepted value must re-encode, the re-encoding must decode, and decode/encode must then be a
+//! fixed point; decoded statements must not make `verify` panic. Constructors taking integers must
+//! reject values >= p.
+//!
+//! MEMORY GUARD. `winter_utils::ByteReader::read_many(n)` (winter-utils 0.8.5,
+//! src/serde/byte_reader.rs:190) starts with `Vec::with_capacity(n)` and only then reads the
+//! elements: there is NO check of `n` against the remaining input (`SliceReader::read_slice` /
+//! `read_vec` do check first, so byte-string lengths are harmless). `StackInputs`, `StackOutputs`
+//! (and `PublicInputs`, which embeds them) pass an attacker-controlled `u32` straight into
+//! `read_many::<Felt|u64>`: a 4-byte input can request up to 32 GiB. A failed allocation aborts the
+//! process and cannot be caught, so the monitor models the position of these counts
+//! (`prealloc_request`) and does not call a decoder when the request would exceed 2^28 bytes; such
+//! inputs are tallied under `resource/huge-prealloc` (evidence note, not a violation: the property
+//! as stated is about panics and accepted values). All other counts are `u8`/`u16` (at most
+//! 65535 x size_of::<Node>() per nesting level), which is harmless.
+
+use crate::props::c10::{self, env_case, gen_module_src, gen_program_src, proofs, rand_kernel, rand_stack_inputs, rand_stack_outputs, Disabled};
+use crate::report::{merge_all, truncate, Cfg, Meta, Report};
+use crate::util::{biased_felt, catch, hex, par_map, rng_for, unhex, Rng8, P};
+use assembly::ast::{AstSerdeOptions, Instruction, ModuleAst, ModuleImports, Node, ProcReExport, ProcedureAst, ProgramAst};
+use assembly::{LibraryNamespace, LibraryPath, MaslLibrary, ProcedureId, ProcedureName, Version};
+use miden::ExecutionProof;
+use processor::{AdviceInputs, Kernel, ProgramInfo, StackInputs};
+use rand::seq::SliceRandom;
+use rand::Rng;
+use serde_json::{json, Value};
+use std::collections::BTreeMap;
+use vm_core::crypto::hash::RpoDigest;
+use vm_core::utils::{ByteReader, Deserializable, DeserializationError, Serializable, SliceReader};
+use vm_core::{Felt, StackOutputs};
 
 pub fn meta() -> Meta {
-    Meta { level: "exploration", rule: "stub".into(), assumptions: vec![] }
+    Meta {
+        level: "fault_enumeration",
+        rule: "each evaluation = one (decoder, input bytes) pair: decode under catch_unwind; on Ok re-encode, decode again, re-encode again and compare; statements and proofs that decode are additionally passed to verify() with a real proof. Inputs: every valid encoding unchanged, all its truncations (small inputs) and seeded mutations (bit flips, byte substitutions, length-field edits to 0/1/max/huge, opcode swaps, insert/delete/splice, appended garbage) plus random byte strings. distinct = distinct (decoder, mutation kind, outcome class incl. panic site)".into(),
+        assumptions: vec![
+            "inputs whose u32 element count would make read_many pre-allocate more than 2^28 bytes are not executed in-process (allocation failure aborts and cannot be observed as a panic); they are tallied as resource/huge-prealloc".into(),
+            "valid seeds come from C10's generator (every serde opcode), five real proofs and random statements; exploration beyond their neighbourhood is the fuzz lane's job (lanes/C19.sh)".into(),
+        ],
+    }
 }
 
-pub fn run(_cfg: &Cfg) -> Report {
-    let mut rep = Report::new();
-    rep.inconclusive("not-implemented");
-    rep
+pub const PREALLOC_CAP: u64 = 1 << 28;
+
+// DECODERS
+// ================================================================================================
+
+#[derive(Clone, Debug)]
+pub enum Outcome {
+    Err(String),
+    /// accepted; carries the canonical re-encoding
+    Ok(Vec<u8>),
+    /// a deviation: (signature, description)
+    Bad(String, String),
 }
 
-pub fn replay(_v: &serde_json::Value, _rep: &mut Report) {}
+fn err_class(e: &DeserializationError) -> String {
+    match e {
+        DeserializationError::InvalidValue(_) => "InvalidValue".into(),
+        DeserializationError::UnexpectedEOF => "UnexpectedEOF".into(),
+        DeserializationError::UnknownError(_) => "UnknownError".into(),
+    }
+}
+
+/// decode -> encode -> decode -> encode with every stage under `catch`.
+fn cycle<T>(
+    name: &str,
+    bytes: &[u8],
+    dec: impl Fn(&[u8]) -> Result<T, DeserializationError>,
+    enc: impl Fn(&T) -> Vec<u8>,
+    eq: impl Fn(&T, &T) -> bool,
+    post: impl Fn(&T) -> Option<(String, String)>,
+) -> Outcome {
+    let v = match catch(|| dec(bytes)) {
+        Err(p) => return Outcome::Bad(format!("panic/{name}/{}", p.site()), format!("decoder panicked: {} at {}", p.message, p.location)),
+        Ok(Err(e)) => return Outcome::Err(err_class(&e)),
+        Ok(Ok(v)) => v,
+    };
+    let e1 = match catch(|| enc(&v)) {
+        Err(p) => return Outcome::Bad(format!("panic/{name}:reencode/{}", p.site()), format!("re-encoding an accepted value panicked: {} at {}", p.message, p.location)),
+        Ok(b) => b,
+    };
+    let v2 = match catch(|| dec(&e1)) {
+        Err(p) => return Outcome::Bad(format!("panic/{name}:redecode/{}", p.site()), format!("decoding the re-encoding panicked: {} at {}", p.message, p.location)),
+        Ok(Err(e)) => return Outcome::Bad(format!("reject-own-encoding/{name}/{}", err_class(&e)), format!("accepted value re-encodes to bytes the decoder rejects: {e}")),
+        Ok(Ok(v)) => v,
+    };
+    match catch(|| (enc(&v2), eq(&v, &v2))) {
+        Err(p) => return Outcome::Bad(format!("panic/{name}:reencode/{}", p.site()), p.message),
+        Ok((e2, same)) => {
+            if e2 != e1 {
+                return Outcome::Bad(format!("unstable-encoding/{name}"), "encode(decode(encode(v))) != encode(v)".into());
+            }
+            if !same {
+                return Outcome::Bad(format!("not-equal-after-roundtrip/{name}"), "decode(encode(v)) != v".into());
+            }
+        }
+    }
+    if let Some((sig, what)) = post(&v) {
+        return Outcome::Bad(sig, what);
+    }
+    Outcome::Ok(e1)
+}
+
+fn no_post<T>(_: &T) -> Option<(String, String)> {
+    None
+}
+
+/// verify() with one element of the statement replaced by a decoded one must return, not panic.
+fn verify_with(
+    name: &str,
+    info: Option<&ProgramInfo>,
+    si: Option<&StackInputs>,
+    so: Option<&StackOutputs>,
+    proof: Option<&ExecutionProof>,
+) -> Option<(String, String)> {
+    let fx = proofs();
+    let f = fx.first()?;
+    let info = info.cloned().unwrap_or_else(|| f.info.clone());
+    let si = si.cloned().unwrap_or_else(|| f.inputs.clone());
+    let so = so.cloned().unwrap_or_else(|| f.outputs.clone());
+    let proof = proof.cloned().unwrap_or_else(|| f.proof.clone());
+    match catch(|| miden::verify(info, si, so, proof)) {
+        Ok(_) => None,
+        Err(p) => Some((format!("verify-panic/{name}/{}", p.site()), format!("verify() panicked on a decoded {name}: {} at {}", p.message, p.location))),
+    }
+}
+
+pub const DECODERS: [&str; 23] = [
+    "ExecutionProof::from_bytes",
+    "ExecutionProof::read_from",
+    "ProgramAst",
+    "ProgramAst+locations",
+    "ModuleAst",
+    "ModuleAst+locations",
+    "MaslLibrary",
+    "Kernel",
+    "ProgramInfo",
+    "StackInputs",
+    "StackOutputs",
+    "PublicInputs",
+    "LibraryPath",
+    "LibraryNamespace",
+    "Version",
+    "ProcedureName",
+    "ProcedureId",
+    "ModuleImports",
+    "ProcedureAst",
+    "ProcReExport",
+    "Node",
+    "Instruction",
+    "RpoDigest",
+];
+
+/// Bytes `read_many` would pre-allocate for this input (model of the count positions; see header).
+pub fn prealloc_request(decoder: &str, b: &[u8]) -> u64 {
+    let u32_at = |o: usize| -> Option<u64> { b.get(o..o + 4).map(|s| u32::from_le_bytes([s[0], s[1], s[2], s[3]]) as u64) };
+    let inputs = |o: usize| -> (u64, Option<usize>) {
+        match u32_at(o) {
+            Some(c) => (c * 8, (c < (1 << 26)).then(|| o + 4 + 8 * c as usize)),
+            None => (0, None),
+        }
+    };
+    let outputs = |o: usize| -> u64 {
+        let (r1, next) = inputs(o);
+        let r2 = next.filter(|n| *n <= b.len()).map(|n| inputs(n).0).unwrap_or(0);
+        r1.max(r2)
+    };
+    match decoder {
+        "StackInputs" => inputs(0).0,
+        "StackOutputs" => outputs(0),
+        "PublicInputs" => {
+            // ProgramInfo = 32-byte digest, u16 kernel length, 32 bytes per kernel procedure
+            let k = match b.get(32..34) {
+                Some(s) => u16::from_le_bytes([s[0], s[1]]) as usize,
+                None => return 0,
+            };
+            let o = 34 + 32 * k;
+            let (r1, next) = inputs(o);
+            let r2 = next.filter(|n| *n <= b.len()).map(outputs).unwrap_or(0);
+            r1.max(r2)
+        }
+        _ => 0,
+    }
+}
+
+/// Runs one decoder on one input. `do_verify`: also pass accepted statements / proofs to verify().
+pub fn run_decoder(name: &str, bytes: &[u8], do_verify: bool) -> Outcome {
+    let opts_of = |b: &[u8]| AstSerdeOptions::new(b.first().copied() == Some(1));
+    match name {
+        "ExecutionProof::from_bytes" => cycle(name, bytes, ExecutionProof::from_bytes, |p| p.to_bytes(), |a, b| a == b, |p| if do_verify { verify_with(name, None, None, None, Some(p)) } else { None }),
+        "ExecutionProof::read_from" => cycle(name, bytes, ExecutionProof::read_from_bytes, |p| Serializable::to_bytes(p), |a, b| a == b, no_post),
+        "ProgramAst" => cycle(name, bytes, |b| ProgramAst::from_bytes(b).map(|a| (a, opts_of(b))), |(a, o)| a.to_bytes(*o), |a, b| a.0 == b.0, no_post),
+        "ProgramAst+locations" => cycle(
+            name,
+            bytes,
+            |b| {
+                let mut r = SliceReader::new(b);
+                let mut a = ProgramAst::read_from(&mut r)?;
+                a.load_source_locations(&mut r)?;
+                Ok((a, opts_of(b)))
+            },
+            |(a, o)| {
+                let mut out = a.to_bytes(*o);
+                a.write_source_locations(&mut out);
+                out
+            },
+            |a, b| a.0 == b.0,
+            no_post,
+        ),
+        "ModuleAst" => cycle(name, bytes, |b| ModuleAst::from_bytes(b).map(|a| (a, opts_of(b))), |(a, o)| a.to_bytes(*o), |a, b| a.0 == b.0, no_post),
+        "ModuleAst+locations" => cycle(
+            name,
+            bytes,
+            |b| {
+                let mut r = SliceReader::new(b);
+                let o = AstSerdeOptions::read_from(&mut r)?;
+                let mut a = ModuleAst::read_from(&mut r, o)?;
+                a.load_source_locations(&mut r)?;
+                Ok((a, o))
+            },
+            |(a, o)| {
+                let mut out = a.to_bytes(*o);
+                a.write_source_locations(&mut out);
+                out
+            },
+            |a, b| a.0 == b.0,
+            no_post,
+        ),
+        "MaslLibrary" => cycle(name, bytes, MaslLibrary::read_from_bytes, |l| l.to_bytes(), |a, b| a == b, no_post),
+        "Kernel" => cycle(name, bytes, Kernel::read_from_bytes, |k| k.to_bytes(), |a, b| a == b, |k| {
+            if do_verify {
+                let f = proofs().first()?;
+                verify_with(name, Some(&ProgramInfo::new(*f.info.program_hash(), k.clone())), None, None, None)
+            } else {
+                None
+            }
+        }),
+        "ProgramInfo" => cycle(name, bytes, ProgramInfo::read_from_bytes, |k| k.to_bytes(), |a, b| a == b, |i| if do_verify { verify_with(name, Some(i), None, None, None) } else { None }),
+        "StackInputs" => cycle(name, bytes, StackInputs::read_from_bytes, |k| k.to_bytes(), |a, b| a.values() == b.values(), |i| if do_verify { verify_with(name, None, Some(i), None, None) } else { None }),
+        "StackOutputs" => cycle(name, bytes, StackOutputs::read_from_bytes, |k| k.to_bytes(), |a, b| a == b, |o| if do_verify { verify_with(name, None, None, Some(o), None) } else { None }),
+        "PublicInputs" => cycle(name, bytes, air::PublicInputs::read_from_bytes, |k| k.to_bytes(), |a, b| a.to_bytes() == b.to_bytes(), |pi| {
+            if !do_verify {
+                return None;
+            }
+            // the type has no accessors: split its canonical encoding into the three parts again
+            let b = pi.to_bytes();
+            let mut r = SliceReader::new(&b);
+            let info = ProgramInfo::read_from(&mut r).ok()?;
+            let si = StackInputs::read_from(&mut r).ok()?;
+            let so = StackOutputs::read_from(&mut r).ok()?;
+            verify_with(name, Some(&info), Some(&si), Some(&so), None)
+        }),
+        "LibraryPath" => cycle(name, bytes, LibraryPath::read_from_bytes, |k| k.to_bytes(), |a, b| a == b, |p| {
+            // accessors of an accepted path must not panic either
+            match catch(|| (p.first().len(), p.last().len(), p.num_components())) {
+                Ok(_) => None,
+                Err(pi) => Some((format!("panic/{name}:accessor/{}", pi.site()), format!("first()/last() of an accepted path {:?} panicked: {}", p.path(), pi.message))),
+            }
+        }),
+        "LibraryNamespace" => cycle(name, bytes, LibraryNamespace::read_from_bytes, |k| k.to_bytes(), |a, b| a == b, no_post),
+        "Version" => cycle(name, bytes, Version::read_from_bytes, |k| k.to_bytes(), |a, b| a == b, no_post),
+        "ProcedureName" => cycle(name, bytes, ProcedureName::read_from_bytes, |k| k.to_bytes(), |a, b| a == b, no_post),
+        "ProcedureId" => cycle(name, bytes, ProcedureId::read_from_bytes, |k| k.to_bytes(), |a, b| a == b, no_post),
+        "ModuleImports" => cycle(name, bytes, ModuleImports::read_from_bytes, |k| k.to_bytes(), |a, b| a == b, no_post),
+        "ProcedureAst" => cycle(name, bytes, ProcedureAst::read_from_bytes, |k| k.to_bytes(), |a, b| a == b, no_post),
+        "ProcReExport" => cycle(name, bytes, ProcReExport::read_from_bytes, |k| k.to_bytes(), |a, b| a == b, no_post),
+        "Node" => cycle(name, bytes, Node::read_from_bytes, |k| k.to_bytes(), |a, b| a == b, no_post),
+        "Instruction" => cycle(name, bytes, Instruction::read_from_bytes, |k| k.to_bytes(), |a, b| a == b, no_post),
+        "RpoDigest" => cycle(name, bytes, RpoDigest::read_from_bytes, |k| k.to_bytes(), |a, b| a == b, no_post),
+        _ => Outcome::Err("unknown-decoder".into()),
+    }
+}
